@@ -594,6 +594,91 @@ def runPLine (r : Report) (sec : Nat) (l : Line) : Report :=
     return r
   | _, _ => r.mismatch sec l.idx "bad-op" (joinSp l.op)
 
+/-! ### `v`: lookups through the valuers of core/mapping/valuer.go on a chain of nested objects
+  v C [ {current} {parent} {grandparent} … ] Q [ s:r.<key> | s:s.<key> … ]  =>  found <value> | absent ; …
+`r.` = `recursiveValuer` (a field tagged `inherit`), `s.` = `simpleValuer`; the queries run in order on the same maps (the
+merge of an inherited object is kept in the current node). -/
+
+def jTokens : Nat → J → String
+  | 0, _ => "?"
+  | fuel + 1, j =>
+    match j with
+    | .null => "null"
+    | .bool b => if b then "true" else "false"
+    | .num s => "n:" ++ String.ofList s
+    | .str s => "s:" ++ String.ofList s
+    | .arr l => "[ " ++ String.join (l.map fun x => jTokens fuel x ++ " ") ++ "]"
+    | .obj m => "{ " ++ String.join ((canonObj m).map fun kv => String.ofList kv.1 ++ " " ++ jTokens fuel kv.2 ++ " ") ++ "}"
+
+def splitOnTok (sep : String) : List String → List (List String)
+  | [] => [[]]
+  | t :: rest =>
+    match splitOnTok sep rest with
+    | [] => [[]]
+    | h :: tl => if t = sep then [] :: h :: tl else (t :: h) :: tl
+
+def objsOf : List J → Option (List Obj)
+  | [] => some []
+  | .obj m :: rest => (objsOf rest).map (m :: ·)
+  | _ => none
+
+def runVLine (r : Report) (sec : Nat) (l : Line) : Report :=
+  match l.op with
+  | "v" :: "C" :: rest =>
+    match parseJT (rest.length + 1) rest with
+    | some (.arr cl, "Q" :: r2) =>
+      match objsOf cl, parseJT (r2.length + 1) r2 with
+      | some ch0, some (.arr ql, []) => Id.run do
+        let mut r := { r with ops := r.ops + 1 }
+        r := r.addCover "mode-valuer"
+        r := r.addCover s!"valuer-chain-depth-{ch0.length}"
+        match l.obs with
+        | "PANIC" :: _ => return r.violation sec l.idx s!"panic op=[{joinSp l.op}] impl=[{joinSp l.obs}]"
+        | _ => pure ()
+        let answers := splitOnTok ";" l.obs
+        if answers.length ≠ ql.length then return r.mismatch sec l.idx "answer-count" (joinSp l.obs)
+        let mut ch := ch0
+        for (q, ans) in ql.zip answers do
+          match q with
+          | .str (kind :: '.' :: key) =>
+            let rec_ : Bool := kind = 'r'
+            let mres : Option J := if rec_ then (recValueM ch key).1 else simpleValue ch key
+            let boundInChain := ch.any (hasKey key ·)
+            let boundInCurrent := match ch with | cur :: _ => hasKey key cur | [] => false
+            let nearest : Option J := (ch.filterMap (getKey key ·)).head?
+            let expected := match mres with
+              | some j => "found " ++ jTokens (jSize j + 1) j
+              | none => "absent"
+            r := r.addCover (if rec_ then "valuer-recursive-lookup" else "valuer-simple-lookup")
+            if rec_ then
+              match getKey key (ch.headD []), mres with
+              | none, some _ => r := r.addCover "valuer-inherited-from-ancestor"
+              | some (.obj _), some (.obj m) =>
+                if (match (recValueM (ch.drop 1) key).1 with | some (.obj _) => true | _ => false) then
+                  r := r.addCover "valuer-objects-merged"
+                else if m.isEmpty then pure () else pure ()
+              | _, _ => pure ()
+            else if boundInChain && !boundInCurrent then r := r.addCover "valuer-simple-ignores-ancestors"
+            -- monitor (on the implementation's own answer): found iff bound where the valuer may look; a binding that
+            -- is not an object is handed over as the nearest node binds it (the supplied value, unchanged)
+            let found : Bool := ans.head? = some "found"
+            let shouldFind : Bool := if rec_ then boundInChain else boundInCurrent
+            if found ≠ shouldFind then
+              r := r.violation sec l.idx s!"valuer-lookup-wrong(found={found},bound={shouldFind}) key={String.ofList key} op=[{joinSp l.op}] impl=[{joinSp l.obs}]"
+            else match nearest with
+              | some (.obj _) => pure ()
+              | some j =>
+                if found && joinSp ans ≠ "found " ++ jTokens (jSize j + 1) j then
+                  r := r.violation sec l.idx s!"valuer-lookup-wrong(value of the nearest binding changed) key={String.ofList key} op=[{joinSp l.op}] impl=[{joinSp l.obs}]"
+              | none => pure ()
+            if joinSp ans ≠ expected then r := r.mismatch sec l.idx expected (joinSp ans)
+            if rec_ then ch := (recValueM ch key).2
+          | _ => r := r.mismatch sec l.idx "bad-query" (joinSp l.op)
+        return r
+      | _, _ => r.mismatch sec l.idx "bad-op" (joinSp l.op)
+    | _ => r.mismatch sec l.idx "bad-op" (joinSp l.op)
+  | _ => r.mismatch sec l.idx "bad-op" (joinSp l.op)
+
 def runSection (r : Report) (s : Section) : Report :=
   s.lines.foldl (fun r l => if (l.op.head?.bind selOf).isSome then runPLine r s.idx l
     else if l.op.head? = some "uy" then runFrontEnd r s.idx l "mode-yaml(UnmarshalYamlBytes)" false true
@@ -602,6 +687,7 @@ def runSection (r : Report) (s : Section) : Report :=
       let fmt := kvStr (l.op.take 4) "fmt"
       let via := kvStr (l.op.take 4) "via"
       runFrontEnd r s.idx l s!"mode-conf({if via = "file" then "Load" else "LoadFrom"}{fmt})" true (fmt = "yaml")
+    else if l.op.head? = some "v" then runVLine r s.idx l
     else if l.op.head? = some "u" then runLine r s.idx l
     else r.mismatch s.idx l.idx "bad-op" (joinSp l.op)) r
 
